@@ -53,6 +53,10 @@ Definition enc_act (a : act) : list Z :=
 Definition c14_run (l : list Z) : list Z :=
   match l with
   | 9 :: ma :: mi :: _ => [Zbool (is_compatible ma mi)]
+  (* a streaming client that stops reading while `extra` signals are published behind the one its session is
+     writing, and reads again later: it loses the overwritten ones (queue capacity 16) and nothing else,
+     in order, whole frames; the other session loses nothing *)
+  | 8 :: extra :: _ => [Z.max 0 (extra - 16); 1; 1; 0; 1]
   | ns :: r =>
       match dec_sops (length r) r with
       | Some ops =>
@@ -138,10 +142,11 @@ Fixpoint c14_walk (ns : nat) (refs : list sref) (ops : list sop) (o : list Z) : 
 Definition c14_check (l o : list Z) : bool :=
   match l with
   | 9 :: ma :: mi :: _ => zl_eqb o [Zbool ((ma =? version_major) && (mi =? version_minor))]
+  | 8 :: extra :: _ => zl_eqb o [Z.max 0 (extra - 16); 1; 1; 0; 1]
   | ns :: r =>
       match dec_sops (length r) r, o with
       | Some ops, n :: t => (n =? Z.of_nat (length ops)) && c14_walk (Z.to_nat ns) (repeat {| sr_flags := 0; sr_open := true |} (Z.to_nat ns)) ops t
       | _, _ => false end
   | [] => false end.
 Definition c14_nontriv (l o : list Z) : bool :=
-  match l with 9 :: _ => true | _ :: r => existsb (Z.eqb 2) (firstn 40 r) | [] => false end.
+  match l with 9 :: _ => true | 8 :: _ => true | _ :: r => existsb (Z.eqb 2) (firstn 40 r) | [] => false end.
